@@ -182,7 +182,7 @@ def norm(v):
         return {"__d": {k: norm(x) for k, x in v.items()}}
     if isinstance(v, tuple):
         return tuple(norm(x) for x in v)
-    if isinstance(v, (list, Seq)):
+    if isinstance(v, (list, Seq)) or hasattr(v, "gi_frame"):
         return [norm(x) for x in v]
     if isinstance(v, bool):
         return ("bool", v)
